@@ -228,8 +228,12 @@ def run_property(prop, tier, seed, module):
         # That is not evidence against the property; the rules that ran up to this point stand, the rest is undecided.
         ctx.undecided("anchor", str(e).replace(" ", "_")[:120], "%s: the rules of this check that are anchored there were not applied" % e)
         explanation, not_decided = getattr(module, "EXPLANATION", "anchor missing"), getattr(module, "NOT_DECIDED", "")
-    except Exception as e:  # a crash of the analyser is not a verdict: fail closed, visibly
+    except Exception as e:
+        # a crash of the analyser is not a verdict about the code: whatever the rules reported before it stands, the rest is
+        # UNDECIDED — loudly (traceback on stderr, an UNDECIDED line, `analyser_error` in the evidence).  It is never turned into a
+        # VIOLATION: that would be an alarm without a construct to point at.
         traceback.print_exc()
-        ctx.report("analyser-error", type(e).__name__, "analyser crashed: %r" % (e,))
+        ctx.undecided("analyser-error", type(e).__name__, "the analyser crashed (%r): the rules after this point were not applied" % (e,))
+        ctx.extra_cov["analyser_error"] = "%s: %s" % (type(e).__name__, e)
         explanation, not_decided = getattr(module, "EXPLANATION", "analyser error"), getattr(module, "NOT_DECIDED", "")
     return finish(ctx, explanation, not_decided)
